@@ -576,7 +576,10 @@ class SupvisorsMapper:
             sup_id.local_view = local_view = LocalNetwork(self.logger)
             local_view.from_network(remote_view)
         # update nodes using machine id as a key
-        self.nodes.setdefault(remote_view.machine_id, []).append(sup_id.identifier)
+        # NOTE: the identification is received at every handshake, so take care not to duplicate the entry
+        node_identifiers = self.nodes.setdefault(remote_view.machine_id, [])
+        if sup_id.identifier not in node_identifiers:
+            node_identifiers.append(sup_id.identifier)
         # assign the stereotypes
         self._assign_stereotypes(identifier, payload['stereotypes'])
 
